@@ -48,6 +48,23 @@ def P_redef_move(c, np, hints='nc_header_align_size=4;nc_var_align_size=4'):
     c.op('*', 'enddef', f=0)
     c.op('*', 'close', f=0)
 
+def P_redef_move_multi(c, np):
+    """several fixed-size and several record variables are moved one after the other: an error in any of the moves must survive"""
+    c.op('*', 'create', f=0, path='a.nc', fmt=1, hints='nc_header_align_size=4;nc_var_align_size=4;nc_record_align_size=4')
+    c.op('*', 'def_dim', name='t', unlim=1); c.op('*', 'def_dim', name='x', len=np * 2)
+    for i, (n, dd) in enumerate([('f0', [1]), ('f1', [1]), ('f2', [1]), ('r0', [0, 1]), ('r1', [0])]):
+        c.op('*', 'def_var', name=n, xtype='int', dims=dd)
+    c.op('*', 'enddef', f=0)
+    for v in range(3):
+        for r in range(np): c.op(r, 'put', f=0, form='vara', v=v, s=[2 * r], c=[2], coll=1, mem='int', vals=[10 * v + 2 * r, 10 * v + 2 * r + 1])
+    for rec in range(2):
+        for r in range(np): c.op(r, 'put', f=0, form='vara', v=3, s=[rec, 2 * r], c=[1, 2], coll=1, mem='int', vals=[50 + rec, 60 + r])
+    c.op('*', 'redef', f=0)
+    c.op('*', 'put_att', f=0, v=-1, name='big', xtype='int', n=60, vals=list(range(60)))
+    c.op('*', 'def_var', f=0, name='nf', xtype='int', dims=[1])
+    c.op('*', 'enddef', f=0)
+    c.op('*', 'close', f=0)
+
 def P_redef_move_coll(c, np): P_redef_move(c, np, hints='nc_header_align_size=4;nc_var_align_size=4;romio_no_indep_rw=true')
 
 def P_blocking(c, np):
@@ -110,7 +127,7 @@ def P_varn_vard(c, np):
     c.op('*', 'close', f=0)
 
 
-PROGRAMS = [P_enddef, P_enddef_coll_hdr, P_numrecs, P_fill, P_redef_move, P_redef_move_coll, P_blocking, P_nonblocking, P_datamode_header, P_open_read, P_varn_vard]
+PROGRAMS = [P_enddef, P_enddef_coll_hdr, P_numrecs, P_fill, P_redef_move, P_redef_move_multi, P_redef_move_coll, P_blocking, P_nonblocking, P_datamode_header, P_open_read, P_varn_vard]
 
 
 def mkcase(prog, np, fault=None, tag=''):
